@@ -70,6 +70,7 @@ fn main() {
                 "pair" => engines::pair::replay(&v),
                 "mtu" => engines::mtu::replay(&v),
                 "hostile" => engines::hostile::replay(&v),
+                "catchup" => engines::catchup::replay(&v),
                 e => Err(format!("unknown engine {e}")),
             };
             match r {
@@ -107,6 +108,9 @@ fn run_check(prop: &str, tier: Tier) -> i32 {
         "C07" => {
             check.parts.extend(engines::mtu::run(tier, started));
             check.parts.extend(engines::pair::run("C07", tier, std::time::Instant::now()));
+        }
+        "C18" => {
+            check.parts.extend(engines::catchup::run(tier, started));
         }
         "C09" => {
             check.parts.extend(engines::hostile::run(tier, started));
